@@ -266,7 +266,18 @@ impl IndexTable {
 	}
 	#[cfg(target_arch = "x86_64")]
 	fn find_entry(&self, key_prefix: u64, sub_index: usize, chunk: &Chunk) -> (Entry, usize) {
-		self.find_entry_sse2(key_prefix, sub_index, chunk)
+		// The vectorised search compares at most 32 bits of the partial key. Below 18 index bits
+		// the partial key is wider than that, so a candidate may differ in its lowest bits:
+		// confirm it and keep scanning otherwise. Callers rely on an exact partial key match.
+		let partial_key = Entry::extract_key(key_prefix, self.id.index_bits());
+		let mut sub_index = sub_index;
+		loop {
+			let (entry, i) = self.find_entry_sse2(key_prefix, sub_index, chunk);
+			if entry.is_empty() || entry.partial_key(self.id.index_bits()) == partial_key {
+				return (entry, i)
+			}
+			sub_index = i + 1;
+		}
 	}
 
 	#[cfg(not(target_arch = "x86_64"))]
